@@ -196,6 +196,21 @@ func formatEventsParseError(path string, lineNo int, line []byte, cause error) e
 }
 
 func appendEvents(path string, events []Event) error {
+	// A writer killed mid-line leaves an unterminated tail. Appending after it
+	// would glue the next event onto the fragment and make the whole log
+	// unreadable, so rewrite the log without the fragment instead (readEvents
+	// already drops it, and keeps a complete final line that only lacks '\n').
+	unterminated, err := hasUnterminatedTail(path)
+	if err != nil {
+		return err
+	}
+	if unterminated {
+		existing, err := readEvents(path)
+		if err != nil {
+			return err
+		}
+		return appendEventsAtomically(path, existing, events)
+	}
 	file, err := os.OpenFile(path, os.O_APPEND|os.O_CREATE|os.O_WRONLY, 0644)
 	if err != nil {
 		return err
@@ -214,6 +229,30 @@ func appendEvents(path string, events []Event) error {
 		batch = append(batch, '\n')
 	}
 	return writeAll(file, batch)
+}
+
+// hasUnterminatedTail reports whether the file is non-empty and does not end in '\n'.
+func hasUnterminatedTail(path string) (bool, error) {
+	file, err := os.Open(path)
+	if err != nil {
+		if errors.Is(err, os.ErrNotExist) {
+			return false, nil
+		}
+		return false, err
+	}
+	defer file.Close()
+	info, err := file.Stat()
+	if err != nil {
+		return false, err
+	}
+	if info.Size() == 0 {
+		return false, nil
+	}
+	last := make([]byte, 1)
+	if _, err := file.ReadAt(last, info.Size()-1); err != nil {
+		return false, err
+	}
+	return last[0] != '\n', nil
 }
 
 func writeEventsFile(path string, events []Event) error {
